@@ -5,6 +5,7 @@ package main
 import (
 	"encoding/json"
 	"fmt"
+	"math"
 	"math/big"
 	"runtime"
 	"strings"
@@ -296,6 +297,32 @@ func init() {
 				z string
 			}{{1e19, "10000000000000000000"}, {float64(1 << 53), "9007199254740992"}, {1e19 + 2048, "10000000000000002048"}, {float32(16777216), "16777216"}, {json.Number("1e19"), "10000000000000000000"}, {"1e3", "1000"}, {json.Number("12.50e1"), "125"}} {
 				c.Add(map[string]any{"op": "abi.encode", "params": paramsJSON([]*absTy{u256}), "expect": []any{map[string]any{"i": good.z}}, "style": "go", "input": extFromGo([]any{good.v})}, "accept.floatlike")
+			}
+			// every Go integer kind at the ends of its own range, into types that hold it and types that do not
+			for _, tt := range []*absTy{{Kind: "int", M: 64, Name: "v"}, {Kind: "int", M: 72, Name: "v"}, {Kind: "int", M: 256, Name: "v"}, {Kind: "uint", M: 64, Name: "v"}, {Kind: "uint", M: 256, Name: "v"}, {Kind: "int", M: 32, Name: "v"}, {Kind: "uint", M: 8, Name: "v"}, {Kind: "int", M: 8, Name: "v"}, {Kind: "uint", M: 16, Name: "v"}} {
+				lo, hi := intBounds(tt)
+				for _, in := range []any{
+					int64(math.MinInt64), int64(math.MinInt64 + 1), int64(-1), int64(0), int64(math.MaxInt64), int64(math.MaxInt32) + 1,
+					int(math.MinInt64), int(-1), int(math.MaxInt64), int(255), int(256),
+					int32(math.MinInt32), int32(-1), int32(math.MaxInt32), int32(127), int32(128),
+					int16(math.MinInt16), int16(-1), int16(math.MaxInt16), int16(255),
+					int8(math.MinInt8), int8(-1), int8(math.MaxInt8),
+					uint64(0), uint64(math.MaxInt64), uint64(1 << 63), uint64(1<<63 + 1), uint64(math.MaxUint64), uint64(math.MaxUint64 - 1), uint64(math.MaxUint32) + 1,
+					uint(math.MaxInt64), uint(1 << 63), uint(math.MaxUint64), uint(255), uint(256),
+					uint32(0), uint32(1 << 31), uint32(math.MaxUint32), uint32(65535), uint32(65536),
+					uint16(1 << 15), uint16(math.MaxUint16), uint16(255), uint16(256),
+					uint8(0), uint8(127), uint8(128), uint8(255),
+				} {
+					ext := extFromGo([]any{in})
+					z, _ := new(big.Int).SetString(ext["v"].([]any)[0].(map[string]any)["v"].(string), 10)
+					req := map[string]any{"op": "abi.encode", "params": paramsJSON([]*absTy{tt}), "style": "go", "input": ext}
+					if z.Cmp(lo) >= 0 && z.Cmp(hi) <= 0 {
+						req["expect"] = []any{map[string]any{"i": z.String()}}
+					} else {
+						req["expect"] = "reject"
+					}
+					c.Add(req, "boundary.gokind")
+				}
 			}
 			// Go float64 / float32 / *big.Float inputs at powers of two around every integer boundary
 			for _, tt := range []*absTy{{Kind: "int", M: 64, Name: "v"}, {Kind: "int", M: 72, Name: "v"}, {Kind: "int", M: 256, Name: "v"}, {Kind: "uint", M: 64, Name: "v"}, {Kind: "uint", M: 256, Name: "v"}, {Kind: "int", M: 32, Name: "v"}, {Kind: "uint", M: 8, Name: "v"}} {
